@@ -277,11 +277,11 @@ def search_detailed(ctx):
 
 
 def search_hybrid(ctx):
-    ctx.given(simulate_case("HYBRID"), ctx.n(160, 5000), shrink=ctx.tier != "quick")
+    ctx.given(simulate_case("HYBRID"), ctx.n(160, 2500), shrink=ctx.tier != "quick")
 
 
 def search_hourly(ctx):
-    ctx.given_shared(simulate_case("HOURLY"), ctx.total(48, 1500))
+    ctx.given_shared(simulate_case("HOURLY"), ctx.total(48, 600))
 
 
 SUBS = [
